@@ -46,7 +46,7 @@ def gen_case(streams, tier):
         cfg = gen.make_cfg(nets=(2, 9), classes=g.choice([['bit', 'small'], ['small']]),
                            max_mul_width=4, mem_wide_aw=0.0, mem_aw=(1, 3), rom_aw_max=3,
                            regs=(0, 3), mems=(0, 2), roms=(0, 1), max_concat=16, trunc=False,
-                           write_only_mem_prob=0.25)
+                           write_only_mem_prob=0.25, dup_mem_name_prob=0.3)
         script = gen.gen_script(g, cfg)
         designs.append({'script': script,
                         'cycles': gen.gen_inputs(streams['inputs'], script, 5)})
@@ -251,10 +251,12 @@ def run(case, res):
                                          {'op': kind, 'source': src_m.name, 'mapped_to': new_m.name}, tags)
             # the name index of the result must lead to the memories its nets use (that is how
             # a user obtains them for memory_value_map / inspect_mem)
+            # (names need not be unique: the index then holds one of the namesakes in use)
+            in_use = set(id(net.op_param[1]) for net in result.logic if net.op in 'm@')
             for net in result.logic:
                 if net.op in 'm@':
                     m = net.op_param[1]
-                    if result.memblock_by_name.get(m.name) is not m:
+                    if id(result.memblock_by_name.get(m.name)) not in in_use:
                         return Violation('result', 'memblock_by_name_is_not_the_memory_in_use',
                                          {'op': kind, 'mem': m.name}, tags)
             if kind == 'synth' and not (op['b'] % 3) and \
